@@ -68,4 +68,9 @@ theorem observers_respect_discipline_partial :
     Nic.Gen.LockFacts.observers.all (fun o => Nic.Gen.LockFacts.exempt.contains (o.type ++ "." ++ o.method) || respects Nic.Gen.LockFacts.facts o) = true := by
   decide
 
+/-- **no_access_before_lock**: no method of the lock-carrying types touches a field that some method writes *before* taking the mutex
+it takes later in its own body (a look-up "to save the lock" in front of `Lock()` is exactly such an access). The table is regenerated
+from /repo on every run and is empty on this tree. -/
+theorem no_access_before_lock : Nic.Gen.LockFacts.prelocks = [] := by decide
+
 end Nic.Lockset
